@@ -103,18 +103,21 @@ Proof.
   assert (E : (bnum b <=? bnum hb) = true) by (apply N.leb_le; auto). rewrite E. reflexivity.
 Qed.
 
+(* outside the open finding: no block of the tree commits to a wrong transaction root only *)
+Hypothesis Hno5 : forall h b, info t h = Some b -> bbv b <> 5.
+
 Lemma canon_good_of_DInv : forall d, DInv d -> canon_good t d = true.
 Proof.
   intros d HD. unfold canon_good. apply forallb_forall. intros [n h] Hin. cbn [snd].
   destruct (D_canon t g d HD n h Hin) as [Hs _].
-  destruct (D_info t g d HD h Hs) as [b [I1 [I2 _]]]. rewrite I1. exact I2.
+  destruct (D_info t g d HD h Hs) as [b [I1 [[I2|I2] _]]]; rewrite I1; auto.
+  exfalso. eapply Hno5; eauto.
 Qed.
 
 Lemma consistent_of_Good : forall d, Good t g d -> consistent_b t d (d_headB d) = true.
 Proof.
   intros d [HD [_ HQ]]. unfold consistent_b. rewrite chain_consistent_of_Qd, canon_good_of_DInv; auto.
 Qed.
-
 
 Lemma DInv_headH : forall d h, DInv d -> DInv (apply_write [WHeadH h] d).
 Proof. intros. apply (DInv_soft_write t g); auto. Qed.
@@ -137,6 +140,17 @@ Lemma J_run : forall fuel hist s, J s -> J (run t fuel s hist).
 Proof.
   intros fuel. induction hist as [|ids hist IH]; intros s H; simpl; auto.
   apply IH. apply (J_InsertChain t g); auto. apply blocks_of_tb.
+Qed.
+
+(* clauses 1-3 unconditionally *)
+Lemma import_chain_consistent : forall fuel hist, let s := run t fuel (init_st g) hist in
+  chain_consistent_b t (disk_of s) (d_headB (disk_of s)) = true /\
+  (budget s = None -> cur s = d_headB (disk_of s)).
+Proof.
+  intros fuel hist s.
+  pose proof (J_run fuel hist _ (init_J t g Hg Hg0 Hgood)) as [[HD [_ HQ]] HC]. fold s in HD, HQ, HC.
+  split; [apply chain_consistent_of_Qd; auto|].
+  intros Hb. apply HC. unfold alive. rewrite Hb. discriminate.
 Qed.
 
 (* every state of a history: its database is good, and the running node's head
@@ -174,6 +188,35 @@ Proof.
   pose proof (Good_headH _ (d_headB (disk_of sk)) HG) as HG'.
   split; [|split; [exact HG'|reflexivity]].
   apply (consistent_of_Good _ HG').
+Qed.
+
+Lemma crash_chain_consistent : forall fuel hist batch k, let s0 := run t fuel (init_st g) hist in
+  let sk := crash_run t fuel s0 batch k in
+  budget s0 = None ->
+  exists d, recover t (disk_of sk) = Some (d, d_headB (disk_of sk)) /\
+            chain_consistent_b t d (d_headB (disk_of sk)) = true.
+Proof.
+  intros fuel hist batch k s0 sk Hb. destruct (J_crash_run fuel hist batch k Hb) as [HG _]. fold s0 sk in HG.
+  pose proof HG as [HD [HB HQ]].
+  exists (apply_write [WHeadH (d_headB (disk_of sk))] (disk_of sk)).
+  split; [apply recover_Qd; auto|].
+  apply (chain_consistent_of_Qd (apply_write [WHeadH (d_headB (disk_of sk))] (disk_of sk))).
+  - apply DInv_headH; auto.
+  - apply Qd_headH; auto.
+Qed.
+
+(* only valid blocks are in the index - after every import and at every crash point *)
+Lemma import_canon_good : forall fuel hist, canon_good t (disk_of (run t fuel (init_st g) hist)) = true.
+Proof.
+  intros fuel hist. pose proof (J_run fuel hist _ (init_J t g Hg Hg0 Hgood)) as [[HD _] _].
+  apply canon_good_of_DInv; auto.
+Qed.
+
+Lemma crash_canon_good : forall fuel hist batch k, let s0 := run t fuel (init_st g) hist in
+  budget s0 = None -> canon_good t (disk_of (crash_run t fuel s0 batch k)) = true.
+Proof.
+  intros fuel hist batch k s0 Hb. destruct (J_crash_run fuel hist batch k Hb) as [[HD _] _].
+  apply canon_good_of_DInv; auto.
 Qed.
 
 (* the restarted node is a node in good standing again: everything proved about
